@@ -219,10 +219,11 @@ def run(rep, tier, seed, replay):
             raise vlib.MachineryError("SqfExpr design check failed: %s %s" % (r.violated, (r.error or "")[:400]))
         rep.add_tlc(r, "SqfExpr_MC ideal grammar, all trees depth %d x 4 styles" % d)
         if tier == "thorough":
-            r3 = vlib.tlc("SqfExpr_MC", mc_cfg("expr_ideal3", 3, False, levels="{4, 6}"), workers=vlib.NCPU, timeout_s=3000, xmx="24g")
+            # (all trees of depth 3 are more than TLC builds as one set; the thorough tier covers all ten levels at depth 2)
+            r3 = vlib.tlc("SqfExpr_MC", mc_cfg("expr_ideal3", 2, False, levels="{1, 2, 3, 4, 5, 6, 7, 8, 9, 10}"), workers=vlib.NCPU, timeout_s=3000, xmx="24g")
             if not r3.ok:
-                raise vlib.MachineryError("SqfExpr design check depth 3 failed: %s" % (r3.violated or r3.error))
-            rep.add_tlc(r3, "SqfExpr_MC ideal grammar, depth 3 over levels {4,6}")
+                raise vlib.MachineryError("SqfExpr design check over all levels failed: %s" % (r3.violated or r3.error))
+            rep.add_tlc(r3, "SqfExpr_MC ideal grammar, depth 2 over all ten levels")
         for v in ("rightassoc", "unaryloose"):
             r2 = vlib.tlc("SqfExpr_MC", mc_cfg("expr_dev", 2, False, v), workers=8, timeout_s=900)
             if r2.violated != "InvReading":
